@@ -51,16 +51,23 @@ LONG_TEMPLATES = {
     "nesting": ([[1, "S", ["a", "S", "b"]], [1, "S", ["a", "b"]]], lambda k: {"a"} if k == 0 else {"a", "b"}),
     "left-recursion": ([[1, "S", ["S", "a"]], [1, "S", ["a"]]], lambda k: {"a"} if k == 0 else {"a", EOS}),
     "right-spine-unary": ([[1, "S", ["A"]], [1, "A", ["a", "S"]], [1, "A", ["a"]]], lambda k: {"a"} if k == 0 else {"a", EOS}),
+    # a unary chain of 8 wrapper rules between two consecutive tokens (precedence levels): the open right spine grows by
+    # nine items per token
+    "right-spine-unary-chain-8": ([[1, "S", ["a", "A1"]], [1, "S", ["b"]]] + [[1, f"A{k}", [f"A{k + 1}"]] for k in range(1, 8)] + [[1, "A8", ["S"]]],
+                                  lambda k: {"a", "b"}),
 }
 
 
 def gen_case(rng, spec):
     from rv.gen import grammars as GG
 
-    if rng.random() < (0.01 if spec.get("tier") == "quick" else 0.004):
+    if rng.random() < (0.015 if spec.get("tier") == "quick" else 0.004):
         # size threshold: one long context fed token by token (interpreter's default recursion budget per call)
         name = rng.choice(sorted(LONG_TEMPLATES))
-        return {"long": name, "N": 300 if spec.get("tier") == "quick" else rng.choice([600, 1100]), "alg": "earley" if rng.random() < 0.8 else "cky"}
+        N = 300 if spec.get("tier") == "quick" else rng.choice([600, 1100])
+        if name.endswith("chain-8"):
+            N //= 2  # nine chart items per token
+        return {"long": name, "N": N, "alg": "earley" if rng.random() < 0.8 else "cky"}
 
     if rng.random() < 0.05:
         # scale: 10-16 nonterminals, 6-10 terminals; contexts = prefixes of sampled members (up to 12 tokens) and edits
